@@ -29,7 +29,7 @@ MODEL = "rules"
 BIG = 10 ** 9
 
 RULES = [(23, "KnownOperationTypesRule"), (24, "KnownDirectivesRule"), (25, "UniqueDirectivesPerLocationRule"),
-         (26, "DeferStreamDirectiveLabel")]
+         (26, "DeferStreamDirectiveLabel"), (28, "DeferStreamDirectiveOnRootField")]
 RULE_NAME = dict(RULES)
 
 ASSUMPTIONS = [
@@ -292,7 +292,7 @@ def core(ck, tier, model_ok, budget_s=None):
         return
     rule_text = ("for every generated (schema, document): validate(schema, doc, [R]) as a multiset of (rule, node paths) "
                  "= the extracted Valid/RulesDir.v rule, for R in KnownOperationTypes, KnownDirectives, "
-                 "UniqueDirectivesPerLocation, DeferStreamDirectiveLabel, alone and together. non-trivial = an error of one of them or a directive in the document")
+                 "UniqueDirectivesPerLocation, DeferStreamDirectiveLabel, DeferStreamDirectiveOnRootField (Valid/RulesRoot.v), alone and together. non-trivial = an error of one of them or a directive in the document")
     ck.extra["rulesdir_rule"] = rule_text
     if not ck.rule:
         ck.rule = rule_text
